@@ -26,4 +26,7 @@ def check(ctx: Ctx) -> str:
     markup_inventory(ctx, "R4")
     capture_site_rules(ctx, "R6")
     markup_only_under_autoescape(ctx, "R5")
+    from .c37 import derived_context_rule
+
+    derived_context_rule(ctx, "R7")
     return __doc__ or ""
